@@ -560,6 +560,14 @@ func judge(k *kase, o obs) []finding {
 			add("C11:loop-not-bounded-by-gas:"+opName(k.Fork, k.Op), fmt.Sprintf("the loop JUMPDEST %s POP ... JUMP ran %d iterations with gas limit %d although the constant gas of one iteration allows at most %d (gas left %d): execution is not bounded by the gas supplied",
 				k.Note, n, k.Gas, k.Bound, o.GasLeft))
 		}
+	case "jump-ok":
+		if failed {
+			add("C11:jump-analysis:valid-jumpdest-rejected", fmt.Sprintf("jump to a real JUMPDEST failed with %q (%s)", o.ErrText, k.Note))
+		}
+	case "jump-bad":
+		if o.Kind != "invalid-jump" {
+			add("C11:jump-analysis:jump-into-push-data-accepted", fmt.Sprintf("jump into the data bytes of a PUSH did not fail with an invalid jump destination: err=%q (%s)", o.ErrText, k.Note))
+		}
 	case "depth-logs":
 		if o.NLogs > 1025 {
 			add("C11:call-depth-exceeds-1024:"+k.Note, fmt.Sprintf("nested %s ran %d frames (>1025 including the top-level frame)", k.Note, o.NLogs))
@@ -843,6 +851,7 @@ func main() {
 			"(stack) for every operation with net stack growth the two stack heights around the 1024 limit, and 1023/1024/1025 pushes; " +
 			"(depth) self-recursive CALL/CALLCODE/DELEGATECALL/STATICCALL/AUTHCALL/CREATE/CREATE2 x gas {1e7,9e8,1e14,1e16} x {Call,StaticCall}, depth read back from return data / log count; " +
 			"(value) CALL/CALLCODE/AUTHCALL (plain and authorized)/CREATE/CREATE2 with the value operand over {0,1,2^255-1,2^255,2^256-1} x gas {0,max} x target {0, precompile 1, funded account} x in/out size {0,32} on both tables, each as the sandwich (memory empty/32B) and as a self-counting loop JUMPDEST <args> OP POP .. JUMP that must run out of gas before it exceeds gasLimit/(constant gas of one iteration) iterations; " +
+			"(jump) jump-analysis boundary programs PUSH1 t JUMP | PUSH1 1 PUSH1 t JUMPI, STOP filler, JUMPDEST after the header and before the tail, tail PUSHn (n in {none,1,2,7,8,9,15,16,17,24,31,32}) with k in {0,1,n-1,n} data bytes 0x5b, every total length 6..72, targets = both real JUMPDESTs (must succeed) and the first/last push-data byte (must be an invalid jump), as contract code and as init code; " +
 			"(create) every init code of length <=2 through Create (gas set), CREATE and CREATE2 (sandwich), code-deposit programs for every gas limit in a dense range through Create and through CREATE with an endowment; " +
 			"(pre) each of the 18 precompiles x every input of length <=2 x gas set, modexp length-field triples over a 15-value set x 5 payloads, blake2f rounds/flag/length, 33 boundary lengths x 3 fillings, and CALL/STATICCALL/DELEGATECALL to each precompile with boundary in/out sizes; " +
 			"(gasfn) memorySize+dynamicGas of every memory-touching operation evaluated through a hook without allocating: every (offset,length) pair over a 17-value set up to 2^256-1 x other operands {0,1,max} x memory {0,32B}, and a 2^25-byte grid of offsets/lengths up to 2^37 with bisection at every decrease, the cheapest huge growth found is executed in a sandboxed child process. " +
@@ -911,6 +920,7 @@ func run(c *fw.Ctx) {
 		{"stack", r.partStack},
 		{"depth", r.partDepth},
 		{"value", r.partValue},
+		{"jump", r.partJump},
 		{"create", r.partCreate},
 		{"pre", r.partPrecompiles},
 		{"code", r.partCode},
@@ -1337,6 +1347,107 @@ func (r *runner) partValue() {
 	code, bound := loopProgram(forkB, oi, args, nil, 1000000)
 	r.sample(kase{Part: "value", Fork: forkB, Entry: "call", Bal: true, Code: hx(code), Gas: 1000000, Expect: "loop-bound", Bound: bound,
 		Op: int(vm.CALLCODE), Note: argsNote(oi.Name, args, false)})
+}
+
+// ---------------------------------------------------------------------------------------
+// part jump: jump-destination analysis at every code length residue with truncated PUSH tails
+// ---------------------------------------------------------------------------------------
+
+// jumpProgram: header (PUSH1 t JUMP | PUSH1 1 PUSH1 t JUMPI), STOP filler, JUMPDESTs at the
+// listed positions, tail = PUSHn followed by k data bytes 0x5b, total length L.
+func jumpProgram(L int, jumpi bool, t int, dests []int, n, k int) []byte {
+	code := make([]byte, L) // STOP filler
+	if jumpi {
+		copy(code, []byte{byte(vm.PUSH1), 1, byte(vm.PUSH1), byte(t), byte(vm.JUMPI)})
+	} else {
+		copy(code, []byte{byte(vm.PUSH1), byte(t), byte(vm.JUMP)})
+	}
+	for _, d := range dests {
+		code[d] = byte(vm.JUMPDEST)
+	}
+	if n > 0 {
+		ts := L - 1 - k
+		code[ts] = byte(vm.PUSH1) + byte(n-1)
+		for i := ts + 1; i < L; i++ {
+			code[i] = byte(vm.JUMPDEST)
+		}
+	}
+	return code
+}
+
+func (r *runner) partJump() {
+	ns := []int{0, 1, 2, 7, 8, 9, 15, 16, 17, 24, 31, 32} // 0 = no tail
+	for L := 6; L <= 72 && !r.stop; L++ {
+		for _, n := range ns {
+			ks := []int{0}
+			if n > 0 {
+				ks = nil
+				for _, k := range []int{0, 1, n - 1, n} {
+					dup := false
+					for _, x := range ks {
+						dup = dup || x == k
+					}
+					if !dup {
+						ks = append(ks, k)
+					}
+				}
+			}
+			for _, k := range ks {
+				for _, jumpi := range []bool{false, true} {
+					hdr := 3
+					if jumpi {
+						hdr = 5
+					}
+					tailLen := 0
+					if n > 0 {
+						tailLen = 1 + k
+					}
+					tailStart := L - tailLen
+					if tailStart < hdr+1 {
+						continue
+					}
+					if !r.mine() {
+						continue
+					}
+					type tgt struct {
+						t      int
+						expect string
+					}
+					// real JUMPDESTs right after the header and right before the tail (= last byte when there is no tail)
+					tgts := []tgt{{hdr, "jump-ok"}}
+					if tailStart-1 != hdr {
+						tgts = append(tgts, tgt{tailStart - 1, "jump-ok"})
+					}
+					if k >= 1 { // first and last data byte of the PUSH (they hold 0x5b)
+						tgts = append(tgts, tgt{tailStart + 1, "jump-bad"})
+						if L-1 != tailStart+1 {
+							tgts = append(tgts, tgt{L - 1, "jump-bad"})
+						}
+					}
+					for _, tg := range tgts {
+						code := jumpProgram(L, jumpi, tg.t, []int{hdr, tailStart - 1}, n, k)
+						jn := "JUMP"
+						if jumpi {
+							jn = "JUMPI"
+						}
+						note := fmt.Sprintf("%s to %d, code length %d, tail PUSH%d with %d data bytes", jn, tg.t, L, n, k)
+						if n == 0 {
+							note = fmt.Sprintf("%s to %d, code length %d, no PUSH tail", jn, tg.t, L)
+						}
+						op := int(vm.JUMP)
+						if jumpi {
+							op = int(vm.JUMPI)
+						}
+						r.run(&kase{Part: "jump", Fork: forkA, Entry: "call", Code: hx(code), Gas: 1000000, Expect: tg.expect, Op: op, Note: note})
+						r.run(&kase{Part: "jump", Fork: forkB, Entry: "create", Code: hx(code), Gas: 1000000, Expect: tg.expect, Op: op, Note: note + " (init code)"})
+						r.nontriv += 2
+					}
+				}
+			}
+		}
+	}
+	r.sample(kase{Part: "jump", Fork: forkA, Entry: "call", Code: hx(jumpProgram(8, false, 3, []int{3, 6}, 32, 0)), Gas: 1000000, Expect: "jump-ok", Op: int(vm.JUMP),
+		Note: "JUMP to 3, code length 8, tail PUSH32 with 0 data bytes"})
 }
 
 func (r *runner) partStack() {
